@@ -270,6 +270,38 @@ Definition prog_ok (x : option (list Qc)) (y : list Qc) (e : option exn) (steps 
                 script = [{"op": "interpolate", "new_x": grid, "as_list": False, "method": meth}, {"op": "shift_y", "v": 1.5}, {"op": "restore"}]
                 cases.append({"x": xs_, "y": [float(v) for v in rng.sample(range(-8, 9), m)], "script": script, "seed": 1, "len": len(script), "pool": [],
                               "as_list": False, "int_x": False, "x_none": False, "invalid": False})
+        if "repeat" in pool and "truncate_by_index" in pool:
+            # a series given without abscissae (x = sample numbers), cut from the left, then repeated: the copies continue from where the
+            # cut series stands
+            for start in (1, 3):
+                m = rng.randint(7, 10)
+                script = [{"op": "truncate_by_index", "start": start, "stop": None}, {"op": "repeat", "r": 2}]
+                cases.append({"x": [float(v) for v in range(m)], "y": [float(v) for v in rng.sample(range(-8, 9), m)], "script": script, "seed": 1,
+                              "len": 2, "pool": [], "as_list": False, "int_x": True, "x_none": True, "invalid": False})
+        if "trend" in pool and not self.exhaustive_domain:
+            # a trend callable that adjusts its own parameter in place (`t -= 1.0`), as the first writer of a Weaver built from the
+            # caller's float arrays and after an explicit grid handed in as an array: whatever it is handed, it is not the caller's data
+            tr_ = {"op": "trend", "coef": [0, 1, 0.5], "normalized": False, "fn_kind": "augassign"}
+            for pre in ([], [{"op": "shift_y", "v": 1.5}]):
+                m = rng.randint(5, 8)
+                cases.append({"x": gens.sorted_x(rng, m, rng.choice(["uniform", "dyadic"])), "y": [float(v) for v in rng.sample(range(-8, 9), m)],
+                              "script": [dict(p_) for p_ in pre] + [dict(tr_)], "seed": 1, "len": len(pre) + 1, "pool": [], "as_list": False, "int_x": False,
+                              "x_none": False, "invalid": False})
+            if "interpolate" in pool:
+                m = rng.randint(6, 9)
+                xs_ = gens.sorted_x(rng, m, rng.choice(["int", "dyadic"]))
+                grid = [xs_[0] + (xs_[-1] - xs_[0]) * i / 8 for i in range(9)]
+                grid[-1] = xs_[-1]
+                cases.append({"x": xs_, "y": [float(v) for v in rng.sample(range(-8, 9), m)],
+                              "script": [{"op": "interpolate", "new_x": grid, "as_list": False, "method": "linear"}, dict(tr_)], "seed": 1, "len": 2, "pool": [],
+                              "as_list": False, "int_x": False, "x_none": False, "invalid": False})
+        if "trend" in pool and "scale_x" in pool:
+            # a trend after a change of the time unit (also after a restore): f is evaluated on the abscissae as they are now
+            for pre in ([{"op": "scale_x", "v": 3.0}], [{"op": "scale_x", "v": 0.25}], [{"op": "scale_x", "v": 2.0}, {"op": "restore"}] if "restore" in pool else [{"op": "scale_x", "v": 1.5}]):
+                m = rng.randint(5, 8)
+                script = [dict(p_) for p_ in pre] + [{"op": "trend", "coef": [0, 1, 0.5], "normalized": False, "fn_kind": "array"}]
+                cases.append({"x": gens.sorted_x(rng, m, rng.choice(["uniform", "int", "dyadic"])), "y": [float(v) for v in rng.sample(range(-8, 9), m)],
+                              "script": script, "seed": 1, "len": len(script), "pool": [], "as_list": False, "int_x": False, "x_none": False, "invalid": False})
         if "append" in pool:
             # the periodic flag given as a NumPy bool (y[0] != y[-1] on arrays) and as an integer
             for fk_ in ("np_bool", "int"):
@@ -278,6 +310,19 @@ Definition prog_ok (x : option (list Qc)) (y : list Qc) (e : option exn) (steps 
                               "script": [{"op": "append", "periodic": True, "flag_kind": fk_}], "seed": 1, "len": 1, "pool": [], "as_list": False,
                               "int_x": False, "x_none": False, "invalid": False})
         if "normalize_x" in pool and "normalize_y" in pool:
+            # an axis held in a narrow integer type (slot numbers as int16, percentages as uint8) normalised to plain integer bounds
+            # whose span times the data range exceeds that type: the numbers are normalised, not their machine representation
+            for xd, yd, script in (("int16", None, [{"op": "normalize_x", "lo": 0, "hi": 1440}]),
+                                   (None, "uint8", [{"op": "normalize_y", "lo": 0, "hi": 200}]),
+                                   ("int16", "int16", [{"op": "normalize_y", "lo": -500, "hi": 500}, {"op": "normalize_x", "lo": 0, "hi": 3600}])):
+                m = rng.randint(8, 12)
+                cn_ = {"x": [float(v) for v in sorted(rng.sample(range(0, 288), m))], "y": [float(v) for v in rng.sample(range(0, 200), m)], "script": script, "seed": 1,
+                       "len": len(script), "pool": [], "as_list": False, "int_x": True, "int_y": True, "x_none": False, "invalid": False}
+                if xd:
+                    cn_["x_dtype"] = xd
+                if yd:
+                    cn_["y_dtype"] = yd
+                cases.append(cn_)
             # both axes normalised to the SAME range, in either order, and the values normalised to the range the abscissae happen to
             # span: each axis is mapped onto the requested range whatever the other axis looks like
             for script in ([{"op": "normalize_x", "lo": 0.0, "hi": 1.0}, {"op": "normalize_y", "lo": 0.0, "hi": 1.0}],
@@ -477,7 +522,7 @@ Definition prog_ok (x : option (list Qc)) (y : list Qc) (e : option exn) (steps 
                 ra = r * rspan + rx_[0] if rr else r
                 if not (la + 1e-9 * (1 + abs(la)) < ra):
                     return None
-            return {"op": name, "l": l, "r": r, "lr": lr, "rr": rr}
+            return {"op": name, "l": l, "r": r, "lr": lr, "rr": rr, "bounds_0d": rng.random() < 0.2}
         if name == "truncate_by_index":
             if n < 6:
                 return None
@@ -521,11 +566,11 @@ Definition prog_ok (x : option (list Qc)) (y : list Qc) (e : option exn) (steps 
             return {"op": name, "new_x": g, "as_list": rng.random() < 0.5, "method": method,
                     "also_n": rng.choice([None, None, len(g), 5, 2, len(g) + 3])}
         if name == "trend":
-            return {"op": name, "coef": rng.choice(POLYS), "normalized": rng.random() < 0.5, "fn_kind": rng.choice(["array", "array", "scalar_only", "branching"])}
+            return {"op": name, "coef": rng.choice(POLYS), "normalized": rng.random() < 0.5, "fn_kind": rng.choice(["array", "array", "scalar_only", "branching", "augassign"])}
         if name == "smooth":
             if n < 5:
                 return None
-            return {"op": name, "s": rng.choice([0.0, 0.5, 10.0, None])}
+            return {"op": name, "s": rng.choice([0.0, 0.5, 10.0, None]), "s_type": rng.choice([None, None, None, "np_int", "np_f32", "zero_d", "fraction"])}
         if name == "noise":
             return {"op": name, "snr": rng.choice([10.0, 20.0, 0.0]), "in_db": rng.random() < 0.7, "omit_default": rng.random() < 0.5}
         if name == "restore":
@@ -557,8 +602,9 @@ Definition prog_ok (x : option (list Qc)) (y : list Qc) (e : option exn) (steps 
             return max(abs(float(v)) * 2.0 ** -20, 2.0 ** -30)
         d = {"n_below_2": {"op": "recreate", "n": rng.choice([1, 0, -3, 1.5, 1.75, 0, 1]), "strategy": rng.choice(["pc", "linfixed", "linadapt", "expfixed", "expadapt", "cubic"]),
                            "alpha": 1.0, "a": None, "beta": 0.5, "exp": 2.0, "smooth": 1.0},
-             "rule_t": {"op": "integral_match", "rt": "simpson", "rr": "rectangle", "alpha": 1.0},
-             "rule_r": {"op": "integral_match", "rt": "trapezoid", "rr": "simpson", "alpha": 1.0},
+             "rule_t": {"op": "integral_match", "rt": rng.choice(["simpson", "rect", "trap", "", "zoid"]), "rr": "rectangle", "alpha": 1.0},
+             # (unknown names, among them fragments of the two valid ones and the empty name)
+             "rule_r": {"op": "integral_match", "rt": "trapezoid", "rr": rng.choice(["simpson", "rect", "trap", "", "angle", "Rectangle"]), "alpha": 1.0},
              "strategy": {"op": "integral_match", "rt": "trapezoid", "rr": "rectangle", "alpha": 1.0, "strategy": "nearest"},
              "method": {"op": "interpolate", "n": 5, "method": "quadratic"},
              "fixed_not_in_x": {"op": "integral_match", "rt": "trapezoid", "rr": "rectangle", "alpha": 1.0, "fixed_values": [float(x[0]), mid, float(x[-1])]},
@@ -610,11 +656,16 @@ Definition prog_ok (x : option (list Qc)) (y : list Qc) (e : option exn) (steps 
         elif name == "repeat":
             w.repeat(np.int64(o["r"]) if o.get("n_np") else o["r"])
         elif name == "truncate_by_value":
+            l_, r_ = o["l"], o["r"]
+            if o.get("bounds_0d"):
+                l_, r_ = np.asarray(float(l_)), np.asarray(float(r_))     # the bounds as 0-d arrays (an element taken with arr[()], np.asarray(cfg))
             if om:
                 kw = {k_: True for k_, f_ in (("x_left_as_ratio", o["lr"]), ("x_right_as_ratio", o["rr"])) if f_}
-                w.truncate_by_value(o["l"], o["r"], **kw)
+                w.truncate_by_value(l_, r_, **kw)
             else:
-                w.truncate_by_value(o["l"], o["r"], o["lr"], o["rr"])
+                w.truncate_by_value(l_, r_, o["lr"], o["rr"])
+            if o.get("bounds_0d") and (float(l_) != float(o["l"]) or float(r_) != float(o["r"])):
+                raise AssertionError("bound objects handed in by the caller were modified: %s %s" % (l_, r_))
         elif name == "truncate_by_index":
             if om and o["stop"] is None:
                 w.truncate_by_index(o["start"]) if o["start"] != 0 else w.truncate_by_index()
@@ -675,8 +726,15 @@ Definition prog_ok (x : option (list Qc)) (y : list Qc) (e : option exn) (steps 
             P.splrep = rec_splrep
             xb = np.asarray(w.x, dtype=float).copy()
             yb = np.asarray(w.y, dtype=float).copy()
+            s_arg = o["s"]
+            if o.get("s_type") and s_arg is not None:
+                # the same number as another numeric type (an element of np.arange, a float32 from a config array, a 0-d array, a Fraction)
+                from fractions import Fraction as _Fr
+                s_arg = {"np_int": (np.int64(int(s_arg)) if float(s_arg).is_integer() else np.float32(s_arg) if float(np.float32(s_arg)) == float(s_arg) else s_arg),
+                         "np_f32": (np.float32(s_arg) if float(np.float32(s_arg)) == float(s_arg) else s_arg),
+                         "zero_d": np.asarray(float(s_arg)), "fraction": _Fr(s_arg)}[o["s_type"]]
             try:
-                w.smooth(o["s"])
+                w.smooth(s_arg)
             finally:
                 P.splrep = real
             if len(got) == 1:
@@ -718,8 +776,8 @@ Definition prog_ok (x : option (list Qc)) (y : list Qc) (e : option exn) (steps 
         from traffic_weaver import Weaver
         rng = random.Random(c["seed"])
         rec = DrawRecorder(rng)
-        xin = np.array(c["x"], dtype=np.int64 if c["int_x"] else float)
-        yin = np.array(c["y"], dtype=np.int64 if c.get("int_y") else float)
+        xin = np.array(c["x"], dtype=np.dtype(c["x_dtype"]) if c.get("x_dtype") else (np.int64 if c["int_x"] else float))
+        yin = np.array(c["y"], dtype=np.dtype(c["y_dtype"]) if c.get("y_dtype") else (np.int64 if c.get("int_y") else float))
         cx, cy = xin.copy(), yin.copy()
         out = {"steps": [], "ctor": None}
         try:
@@ -729,6 +787,9 @@ Definition prog_ok (x : option (list Qc)) (y : list Qc) (e : option exn) (steps 
                 w = Weaver.from_2d_array(np.zeros((3, 3)))
             elif c.get("ctor") in CTOR_SHAPES:
                 w = Weaver.from_2d_array(CTOR_SHAPES[c["ctor"]]())
+            elif c.get("via_2d"):
+                # the same series handed in as one (N, 2) table of (x, y) rows — also when N = 2
+                w = Weaver.from_2d_array(np.column_stack((np.asarray(xin, dtype=float), np.asarray(yin, dtype=float))))
             elif c["x_none"]:
                 w = Weaver(None, list(c["y"]) if c["as_list"] else yin)
             elif c["as_list"]:
